@@ -12,6 +12,7 @@ import (
 	"os"
 	"path/filepath"
 	"sync"
+	"sync/atomic"
 	"time"
 
 	"github.com/honeytrap/honeytrap/config"
@@ -369,14 +370,27 @@ func (l *Lab) Probe(local, remote net.Addr, segments [][]byte) error {
 // ProbePaced is Probe with a client that pauses gaps[i] before writing segment i (a missing
 // or zero entry = no pause).  The waits are bounds for "the server hangs", generous enough
 // for a loaded machine; they only cost time when something is wrong.
+// hangSeen: once a wait for the server has run into its bound the server under test hangs for
+// real; the remaining probes of the run then use short bounds (every one of them is reported
+// anyway) instead of costing a minute each.
+var hangSeen int32
+
+func bound(d time.Duration) time.Duration {
+	if atomic.LoadInt32(&hangSeen) != 0 {
+		return 3 * time.Second
+	}
+	return d
+}
+
 func (l *Lab) ProbePaced(local, remote net.Addr, segments [][]byte, gaps []time.Duration) error {
 	sc, cc := Pipe(local, remote)
 	select {
 	case l.accept <- sc:
-	case <-time.After(30 * time.Second):
+	case <-time.After(bound(30 * time.Second)):
+		atomic.StoreInt32(&hangSeen, 1)
 		return fmt.Errorf("server does not accept")
 	}
-	total := 60 * time.Second
+	total := bound(60 * time.Second)
 	for _, g := range gaps {
 		total += g
 	}
@@ -394,6 +408,7 @@ func (l *Lab) ProbePaced(local, remote net.Addr, segments [][]byte, gaps []time.
 	select {
 	case <-sc.Closed():
 	case <-time.After(total):
+		atomic.StoreInt32(&hangSeen, 1)
 		return fmt.Errorf("server did not close the connection")
 	}
 	io.Copy(io.Discard, cc)
@@ -419,12 +434,14 @@ func (l *Lab) ProbeUDP(local net.Addr, remote *net.UDPAddr, datagram []byte, rep
 		}}, closed: make(chan struct{})}
 	select {
 	case l.accept <- u:
-	case <-time.After(30 * time.Second):
+	case <-time.After(bound(30 * time.Second)):
+		atomic.StoreInt32(&hangSeen, 1)
 		return fmt.Errorf("server does not accept")
 	}
 	select {
 	case <-u.closed:
-	case <-time.After(60 * time.Second):
+	case <-time.After(bound(60 * time.Second)):
+		atomic.StoreInt32(&hangSeen, 1)
 		return fmt.Errorf("server did not close the datagram connection")
 	}
 	return nil
